@@ -85,6 +85,23 @@ func (c *context) AssignActions() bool {
 		}
 	}
 
+	// The elements of a 'x*!' term are asked whether they should be discarded:
+	// the generated code calls Discard() on each of them.
+	for _, rule := range c.ParserGrammar.Rules {
+		if RuleGenerated(rule) != generatedOneOrMoreF {
+			continue
+		}
+		elemType := c.getTermGoType(rule.Prods[1].Terms[0])
+		if elemType != nil && !hasDiscardMethod(elemType) {
+			c.Errs.GeneralErrorf(
+				"%v: type %v must have a method Discard() bool",
+				strings.TrimSuffix(rule.Name, "+!")+"*!", elemType)
+		}
+	}
+	if c.Errs.HasError() {
+		return false
+	}
+
 	// Check that every rule has been assigned a Go-type.
 	for _, rule := range c.ParserGrammar.Rules {
 		if RuleGenerated(rule) == generatedSPrime {
@@ -278,6 +295,22 @@ func (c *context) getReduceTypeForGeneratedRule(
 	default:
 		panic("unreachable")
 	}
+}
+
+// hasDiscardMethod returns whether a value of type t has the method
+// Discard() bool that the code generated for 'x*!' calls.
+func hasDiscardMethod(t gotypes.Type) bool {
+	obj, _, _ := gotypes.LookupFieldOrMethod(t, true, nil, "Discard")
+	method, ok := obj.(*gotypes.Func)
+	if !ok {
+		return false
+	}
+	sig := method.Type().(*gotypes.Signature)
+	if sig.Params().Len() != 0 || sig.Results().Len() != 1 {
+		return false
+	}
+	basic, ok := sig.Results().At(0).Type().Underlying().(*gotypes.Basic)
+	return ok && basic.Kind() == gotypes.Bool
 }
 
 func (c *context) matchMethod(prod *lr1.Prod, methods []*actionMethod) []*actionMethod {
